@@ -240,8 +240,8 @@ func (r *e1Run) installMonitors(node int, st *SimStore) {
 					r.res.violate("C04", "block-not-under-own-hash", "online", r.step, "node %d wrote a block under %s that is not the hash of its bytes", node, key)
 				}
 			}
-			r.scanSecret(node, key, val)
 		}
+		r.scanSecret(node, key, val)
 	}
 }
 
